@@ -251,10 +251,11 @@ def r17_3(ctx: Ctx) -> None:
     ctx.check(ok, "R17.3", rc, rc.node, "read_crcs/write_crcs: 4-byte little-endian items", "read_crcs/write_crcs disagree on item width or endianness", construct="read_crcs vs write_crcs")
     # booleans: MSB first on both sides (constant evaluation of the bit expressions for positions 0..15)
     rb, wb = _fn(ctx, "read_boolean"), _fn(ctx, "write_boolean")
-    resets = [n for n in walk(rb.node) if isinstance(n, ast.Assign) and norm(n.targets[0]) == "mask" and isinstance(n.value, ast.Constant) and n.value.value != 0]
-    shifts = [n for n in walk(rb.node) if isinstance(n, ast.AugAssign) and norm(n.target) == "mask" and isinstance(n.op, ast.RShift)]
+    shifts = [n for n in walk(rb.node) if isinstance(n, ast.AugAssign) and isinstance(n.target, ast.Name) and isinstance(n.op, ast.RShift)]
+    mvar = shifts[0].target.id if shifts else "?"
+    resets = [n for n in walk(rb.node) if isinstance(n, ast.Assign) and norm(n.targets[0]) == mvar and isinstance(n.value, ast.Constant) and n.value.value != 0]
     r_ok = len(resets) == 1 and resets[0].value.value == 0x80 and len(shifts) == 1 and isinstance(shifts[0].value, ast.Constant) and shifts[0].value.value == 1 \
-        and bool(q.enclosing_loops(rb, shifts[0])) and any(isinstance(n, ast.BinOp) and isinstance(n.op, ast.BitAnd) and "mask" in norm(n) for n in walk(rb.node))
+        and bool(q.enclosing_loops(rb, shifts[0])) and any(isinstance(n, ast.BinOp) and isinstance(n.op, ast.BitAnd) and mvar in norm(n) for n in walk(rb.node))
     sets = [n for n in walk(wb.node) if isinstance(n, ast.AugAssign) and isinstance(n.op, ast.BitOr) and isinstance(n.target, ast.Subscript)]
     w_ok = len(sets) == 1
     if w_ok:
@@ -356,12 +357,15 @@ def r17_5(ctx: Ctx) -> None:
         emits = [c for c in q.calls(w) if attr_tail(c) in ("write_real_uint64", "write_uint32") and q.enclosing_loops(w, c)]
         for e in emits:
             facts = q.facts_at(w, e)
-            ok = any(pol and isinstance(cd, ast.Subscript) and norm(cd.value) == "defined" for cd, pol in facts)
+            vecs = {c.func.value.id for c in q.calls(w) if attr_tail(c) == "append" and isinstance(c.func.value, ast.Name) and c.args and isinstance(c.args[0], ast.Constant)
+                    and isinstance(c.args[0].value, bool)}
+            ok = any(pol and isinstance(cd, ast.Subscript) and norm(cd.value) in vecs for cd, pol in facts)
             ctx.check(ok, "R17.5", w, e, f"{wname}: value emitted iff defined[i]", f"{wname} emits a value not under defined[i]")
     for rname, key in (("_read_times", None), ("_read_attributes", "attributes"), ("_read_start_pos", "startpos")):
         r = fi.methods[rname]
         ifexps = [n for n in walk(r.node) if isinstance(n, ast.IfExp)]
-        ok = bool(ifexps) and all(isinstance(x.orelse, ast.Constant) and x.orelse.value is None and isinstance(x.test, ast.Subscript) and norm(x.test.value) == "defined" for x in ifexps)
+        dv = {n.targets[0].id for n in walk(r.node) if isinstance(n, ast.Assign) and isinstance(n.targets[0], ast.Name) and isinstance(n.value, ast.Call) and attr_tail(n.value) == "read_boolean"} | set(r.params)
+        ok = bool(ifexps) and all(isinstance(x.orelse, ast.Constant) and x.orelse.value is None and isinstance(x.test, ast.Subscript) and norm(x.test.value) in dv for x in ifexps)
         ctx.check(ok, "R17.5", r, r.node, f"{rname}: undefined entries become None", f"{rname} does not map undefined entries to None", construct=f"{rname} undefined")
     # timestamps are raw 8-byte values on both sides
     rt, wt = fi.methods["_read_times"], fi.methods["_write_times"]
